@@ -1206,6 +1206,12 @@ func (g *gctx) genService() *Def {
 			case 1:
 				a.Req = "optional"
 			}
+			// a default value on the argument (every literal form struct fields get): the
+			// argument then is never a required one, whatever its declared requiredness
+			// (`2: i32 limit = 100`, `1: optional Color c = Color.RED`, `3: required string s = "x"`)
+			if g.o.Defaults && g.chance(1, 3, "arg_hasdefault") && (a.Req != "required" || g.chance(1, 3, "arg_reqdefault")) {
+				a.Default = g.genConst(a.Type, 2)
+			}
 			if g.o.Annotations && g.chance(1, 4, "argannot") {
 				g.fieldAnnots(a, usedNames)
 			}
